@@ -177,4 +177,137 @@ theorem loop_append (hm : 0 < m) (hB : B = 10 * m) (hthr : thr < m) (kx ky : Nat
 
 end Generic
 
+/-! ### Splitting an interpolation loop -/
+
+theorem window_append_left {l1 l2 : List Int} {i : Int} {n : Nat} (h0 : 0 ≤ i) (h : i.toNat + n ≤ l1.length) :
+    window (l1 ++ l2) i n = window l1 i n := by
+  rw [window_ok h0 h, window_ok h0 (by rw [List.length_append]; omega)]
+  congr 1
+  rw [List.drop_append_of_le_length (by omega), List.take_append_of_le_length (by rw [List.length_drop]; omega)]
+
+theorem window_drop {l : List Int} {q : Int} {off n : Nat} (h0 : 0 ≤ q) (hoff : off ≤ l.length) :
+    window l ((off : Int) + q) n = window (l.drop off) q n := by
+  unfold window
+  have e : ((off : Int) + q).toNat = off + q.toNat := by omega
+  have hl : (l.drop off).length = l.length - off := List.length_drop
+  by_cases h : q.toNat + n ≤ (l.drop off).length
+  · rw [if_pos ⟨by omega, by omega⟩, if_pos ⟨h0, h⟩, e, List.drop_drop]
+  · rw [if_neg (fun hh => h (by have := hh.2; omega)), if_neg (fun hh => h hh.2)]
+
+theorem mapRes_append {α β} (f : α → Res β) (l1 l2 : List α) :
+    mapRes f (l1 ++ l2) = (mapRes f l1).bind fun a => (mapRes f l2).bind fun b => .ok (a ++ b) := by
+  induction l1 with
+  | nil => simp only [List.nil_append, mapRes, Res.bind]; cases mapRes f l2 <;> rfl
+  | cons a as ih =>
+    simp only [List.cons_append, mapRes, ih]
+    cases f a with
+    | ok b =>
+      cases mapRes f as with
+      | ok bs => simp only [Res.bind]; cases mapRes f l2 <;> rfl
+      | err e => rfl
+      | oob => rfl
+      | abort => rfl
+    | err e => rfl
+    | oob => rfl
+    | abort => rfl
+
+theorem mapRes_congr {α β} {f g : α → Res β} : ∀ l : List α, (∀ a ∈ l, f a = g a) → mapRes f l = mapRes g l := by
+  intro l
+  induction l with
+  | nil => intro _; rfl
+  | cons a as ih =>
+    intro h
+    simp only [mapRes, h a List.mem_cons_self, ih (fun x hx => h x (List.mem_cons_of_mem _ hx))]
+
+theorem mapRes_map {α β γ} (f : β → Res γ) (g : α → β) (l : List α) : mapRes f (l.map g) = mapRes (fun a => f (g a)) l := by
+  induction l with
+  | nil => rfl
+  | cons a as ih => simp only [List.map_cons, mapRes, ih]
+
+theorem interpol_split (sample sample1 sample2 : Int → Res Int) (m1 m2 inc : Int) (hinc : 0 < inc)
+    (hcnt : interpCount (m1 + m2) inc = interpCount m1 inc + interpCount m2 inc)
+    (h1 : ∀ i : Nat, i < interpCount m1 inc → sample ((i : Int) * inc) = sample1 ((i : Int) * inc))
+    (h2 : ∀ i : Nat, i < interpCount m2 inc →
+      sample (((interpCount m1 inc + i : Nat) : Int) * inc) = sample2 ((i : Int) * inc)) :
+    interpol sample (m1 + m2) inc =
+      (interpol sample1 m1 inc).bind fun o1 => (interpol sample2 m2 inc).bind fun o2 => .ok (o1 ++ o2) := by
+  unfold interpol
+  rw [if_neg (by omega), if_neg (by omega), if_neg (by omega), hcnt, List.range_add, mapRes_append, mapRes_map]
+  rw [mapRes_congr (f := fun j : Nat => sample ((j : Int) * inc)) (g := fun j : Nat => sample1 ((j : Int) * inc))
+    (List.range (interpCount m1 inc)) (fun a ha => h1 a (List.mem_range.1 ha))]
+  rw [mapRes_congr (f := fun a : Nat => sample (((interpCount m1 inc + a : Nat) : Int) * inc))
+    (g := fun j : Nat => sample2 ((j : Int) * inc))
+    (List.range (interpCount m2 inc)) (fun a ha => h2 a (List.mem_range.1 ha))]
+
+/-! ### IIR_FIR -/
+
+/-- One round of the IIR_FIR loop on state (sIIR, buf[0..8)); a state whose head is not 8 long is left alone (never
+    happens; makes the round total so that the generic lemmas apply to every state). -/
+def iirRd (c : Cfg) (st : IIR × List Int) (xs : List Int) : Res ((IIR × List Int) × List Int) :=
+  if st.2.length = 8 then
+    if 2 * c.batchSize + orderFir12 < (st.2 ++ (up2hq st.1 xs).2).length then .oob
+    else
+      (interpol (iirFirSample (st.2 ++ (up2hq st.1 xs).2)) (lshift32 (xs.length : Int) 17) c.invRatio).bind fun outs =>
+      (window (st.2 ++ (up2hq st.1 xs).2) (2 * (xs.length : Int)) orderFir12).bind fun h' =>
+      .ok (((up2hq st.1 xs).1, h'), outs)
+  else .ok (st, [])
+
+def iirLp (c : Cfg) (st : IIR × List Int) (xs : List Int) : Res ((IIR × List Int) × List Int) :=
+  if st.2.length = 8 then
+    (iirFirLoop c st.1 st.2 xs).bind fun r => .ok ((r.1, r.2.1), r.2.2)
+  else .ok (st, [])
+
+def iirPartFacts (c : Cfg) : Bool :=
+  c.fn != useIIRFIR ||
+  ((List.range 11).all (fun r => interpCount (lshift32 ((r * c.fsIn : Nat) : Int) 17) c.invRatio == r * c.fsOut) &&
+   (List.range (9 * c.fsOut)).all (fun i =>
+      (((c.fsOut + i : Nat) : Int) * c.invRatio) / 65536 == ((2 * c.fsIn : Nat) : Int) + ((i : Int) * c.invRatio) / 65536 &&
+      smulwb ((((c.fsOut + i : Nat) : Int) * c.invRatio) % 65536) 12 == smulwb (((i : Int) * c.invRatio) % 65536) 12))
+
+theorem cfgTable_iirPartFacts : ∀ c ∈ cfgTable, iirPartFacts c = true := by decide +kernel
+
+theorem iirLp_unfold (c : Cfg) (st : IIR × List Int) (xs : List Int) :
+    iirLp c st xs =
+      (iirRd c st (xs.take (min xs.length c.batchSize))).bind fun r1 =>
+        if 0 < (xs.drop (min xs.length c.batchSize)).length ∧ 0 < min xs.length c.batchSize then
+          (iirLp c r1.1 (xs.drop (min xs.length c.batchSize))).bind fun r2 => .ok (r2.1, r1.2 ++ r2.2)
+        else .ok (r1.1, r1.2) := by
+  have hlen : (xs.take (min xs.length c.batchSize)).length = min xs.length c.batchSize := by
+    rw [List.length_take]; omega
+  by_cases h8 : st.2.length = 8
+  · unfold iirLp iirRd
+    rw [if_pos h8, if_pos h8, iirFirLoop, hlen]
+    by_cases hal : 2 * c.batchSize + orderFir12 < (st.2 ++ (up2hq st.1 (xs.take (min xs.length c.batchSize))).2).length
+    · rw [if_pos hal, if_pos hal]; rfl
+    · rw [if_neg hal, if_neg hal]
+      cases interpol (iirFirSample (st.2 ++ (up2hq st.1 (xs.take (min xs.length c.batchSize))).2))
+          (lshift32 ((min xs.length c.batchSize : Nat) : Int) 17) c.invRatio with
+      | ok outs =>
+        simp only [Res.bind]
+        cases hw : window (st.2 ++ (up2hq st.1 (xs.take (min xs.length c.batchSize))).2)
+            (2 * ((min xs.length c.batchSize : Nat) : Int)) orderFir12 with
+        | ok hd =>
+          simp only [Res.bind]
+          have hdl : hd.length = 8 := by
+            unfold window at hw
+            split at hw
+            · injection hw with hw; rw [← hw, List.length_take, List.length_drop]; simp only [orderFir12] at *; omega
+            · cases hw
+          by_cases hmore : 0 < (xs.drop (min xs.length c.batchSize)).length ∧ 0 < min xs.length c.batchSize
+          · rw [dif_pos hmore, if_pos hmore, if_pos hdl]
+            cases iirFirLoop c (up2hq st.1 (xs.take (min xs.length c.batchSize))).1 hd (xs.drop (min xs.length c.batchSize)) <;> rfl
+          · rw [dif_neg hmore, if_neg hmore]
+        | err e => rfl
+        | oob => rfl
+        | abort => rfl
+      | err e => rfl
+      | oob => rfl
+      | abort => rfl
+  · unfold iirLp iirRd
+    rw [if_neg h8, if_neg h8]
+    simp only [Res.bind]
+    split
+    · rfl
+    · rfl
+
 end OpusProofs.SilkResamp
